@@ -10,6 +10,7 @@ import (
 	"os"
 	"path/filepath"
 	"runtime"
+	"strings"
 	"sync/atomic"
 	"time"
 
@@ -435,6 +436,14 @@ func genReal(seed int64, idx int, profile string, poll int) scen.E2E {
 			p.Conns = 18 + rng.Intn(24)
 			p.NOps = 60 + rng.Intn(200)
 		}
+		if idx%4 == 1 {
+			// nothing is closed; the first request of the first connection is
+			// held while a new connection must be served
+			p.Hold = true
+			p.Conns = 1 + rng.Intn(4)
+			p.NOps = 4 + rng.Intn(20)
+			cfg.SrvPoll = idx%8 == 1
+		}
 		if idx%4 == 3 {
 			// the client closes its connections in mid-flight
 			p.Teardown = true
@@ -461,10 +470,66 @@ func genReal(seed int64, idx int, profile string, poll int) scen.E2E {
 // (a stuck Close, a stalled dependency) ends the child: its stacks are saved,
 // the case is reported inconclusive and the process exits, so that one stuck
 // scenario cannot hold a check for the whole job timeout.
+// listening reports, without connecting, whether something listens on addr.
+func listening(network, addr string) bool {
+	switch network {
+	case "unix":
+		_, err := os.Stat(addr)
+		return err == nil
+	case "tcp":
+		_, port, err := net.SplitHostPort(addr)
+		if err != nil {
+			return false
+		}
+		var pn int
+		fmt.Sscanf(port, "%d", &pn)
+		b, err := os.ReadFile("/proc/net/tcp")
+		if err != nil {
+			return false
+		}
+		want := fmt.Sprintf(":%04X ", pn)
+		for _, l := range strings.Split(string(b), "\n") {
+			f := strings.Fields(l)
+			if len(f) > 3 && strings.HasSuffix(f[1]+" ", want) && f[3] == "0A" {
+				return true
+			}
+		}
+	}
+	return false
+}
+
+// startRealQuiet starts a server and waits for it to listen WITHOUT opening
+// a connection to it: the scenario's own connections are the first ones the
+// listener ever sees (state shared by all connections of a listener is still
+// untouched by any connection teardown).
+func startRealQuiet(cfg rig.Config, seed int64) (*rig.Rig, error) {
+	for try := 0; try < 8; try++ {
+		r := rig.Start(cfg, nil, newAddr(cfg.Network), seed)
+		ok := rEnv{}.Settle(func() bool {
+			if ret, _ := r.ListenReturned(); ret {
+				return true
+			}
+			return listening(cfg.Network, r.Addr)
+		}, 5*time.Second)
+		if ret, _ := r.ListenReturned(); ret || !ok {
+			r.Server.Close()
+			continue
+		}
+		time.Sleep(30 * time.Millisecond)
+		return r, nil
+	}
+	return nil, fmt.Errorf("server did not come up")
+}
+
 func runRealE2E(p scen.E2E) *scen.Outcome {
 	res := make(chan *scen.Outcome, 1)
 	go func() {
-		res <- scen.RunE2EOn(rEnv{}, p, func(cfg rig.Config, seed int64) (*rig.Rig, error) { return startReal(cfg, seed) })
+		res <- scen.RunE2EOn(rEnv{}, p, func(cfg rig.Config, seed int64) (*rig.Rig, error) {
+			if p.Hold && (cfg.Network == "tcp" || cfg.Network == "unix") {
+				return startRealQuiet(cfg, seed)
+			}
+			return startReal(cfg, seed)
+		})
 	}()
 	select {
 	case o := <-res:
